@@ -41,6 +41,11 @@ def _ext_link(target, sheets):
     return el
 
 
+# write_xlsx(spill_cache=True): the spill cells of array formulas hold a (stale) cached
+# value in the file, as files saved by Excel do; the array formula alone defines them
+SPILL_CACHE = False
+
+
 def write_xlsx(g, dirpath, rnd=None, spell_rnd=None, qualify='min', links=None):
     """One .xlsx per book; returns {book: path}.  links='numeric': every book gets an
     external-link table whose first entry is a file the library cannot read (LEGACY.XLS)
@@ -88,6 +93,8 @@ def _write_xlsx(g, dirpath, rnd, spell_rnd, qualify, links):
             _, _, c1, r1, c2, r2 = c['rect']
             ref = '%s:%s' % (G.a1(c1, r1), G.a1(c2, r2))
             ws[G.a1(col, row)] = ArrayFormula(ref, '=' + G.expr_text(g, c['e'], (b, s), qualify, spell_rnd))
+        elif c['k'] == 'sp' and SPILL_CACHE:
+            ws.cell(row=row, column=col).value = 999
     for n, e in g.names.items():
         b, local, full = G.name_text(g, e)
         books[b].defined_names[n] = DefinedName(n, attr_text=local)
